@@ -801,7 +801,9 @@ SUBS = ("construct-origin", "construct-center", "from_sitk", "chain", "file", "g
 # ---------------------------------------------------------------------------
 # histories on ONE live Grid object: construct -> (query, setter) -> (query, setter); every view judged in
 # every reached state against the ITK image that carries the header the grid itself reports
-H_ROUTES = ("origin", "center", "from_sitk")
+H_ROUTES = ("origin", "center", "from_sitk", "frac-downsample", "frac-resample")
+# the two frac-* routes start from a DERIVED grid whose internally stored size is fractional (odd size halved /
+# extent not divisible by the new spacing): getters round that size, so every setter must do the same
 H_QUERIES = {"quick": ("none", "affine", "inverse_affine", "origin", "index_to_world"),
              "thorough": ("none", "affine", "inverse_affine", "origin", "index_to_world", "world_to_index", "transform")}
 # queries of the second (query, setter) pair: quick uses none / index_to_world (the latter evaluates affine and origin)
@@ -936,6 +938,10 @@ def run_history(sink: Sink, cfg, route: str, ops, judge_from: int = 0):
         st, g = guarded(lambda: Grid(origin=tuple(cfg["origin"]), **grid_kwargs(cfg)))
     elif route == "center":
         st, g = guarded(lambda: Grid(center=tuple(cx0.center.tolist()), **grid_kwargs(cfg)))
+    elif route == "frac-downsample":
+        st, g = guarded(lambda: Grid(origin=tuple(cfg["origin"]), **grid_kwargs(cfg)).downsample())
+    elif route == "frac-resample":
+        st, g = guarded(lambda: Grid(origin=tuple(cfg["origin"]), **grid_kwargs(cfg)).resample(tuple(1.3 * float(v) for v in cfg["spacing"])))
     else:
         st, g = guarded(lambda: Grid.from_sitk(cx0.img))
     if st == "raises":
